@@ -49,3 +49,60 @@ def safe_value_written_at_engine_start():
 
 if __name__ == "__main__":
     print(safe_value_written_at_engine_start())
+
+
+def error_pause_leaves_outputs_unsafe():
+    """a method error during a run pauses the engine (System State Paused): the output with a safe value must carry it on the hardware"""
+    from openpectus.lang.exec.uod import UodBuilder, UodCommand
+    from openpectus.lang.exec.tags import Tag
+    from openpectus.engine.hardware import HardwareLayerBase, RegisterDirection
+    from openpectus.test.engine.utility_methods import EngineTestRunner
+    logging.disable(logging.CRITICAL)
+
+    class RecHW(HardwareLayerBase):
+        def __init__(self):
+            super().__init__()
+            self.values = {}
+
+        def read(self, r):
+            return self.values.get(r.name, 0)
+
+        def write(self, v, r):
+            self.values[r.name] = v
+
+        def connect(self):
+            self._is_connected = True
+
+        def disconnect(self):
+            self._is_connected = False
+    hw = RecHW()
+
+    def open_valve(cmd: UodCommand, **kw):
+        cmd.context.tags["V1"].set_value(1, 0.0)
+        cmd.set_complete()
+
+    def boom(cmd: UodCommand, **kw):
+        raise RuntimeError("boom")
+
+    def create_uod():
+        uod = (UodBuilder().with_instrument("DemoUod").with_author("Demo", "demo@example.org").with_filename(__file__)
+               .with_hardware(hw).with_location("loc").with_hardware_register("V1", RegisterDirection.Both, safe_value=7)
+               .with_tag(Tag("V1", value=0)).with_command(name="Open", exec_fn=open_valve).with_command(name="Boom", exec_fn=boom).build())
+        uod.hwl.connect()
+        return uod
+    try:
+        runner = EngineTestRunner(create_uod, "Open\nMark: A\nBoom\nMark: B\n", fail_on_log_error=False)
+        with runner.run() as instance:
+            e = instance.engine
+            instance.start()
+            for _ in range(12):
+                try:
+                    instance.run_ticks(1)
+                except Exception:
+                    pass
+            state = str(e.tags["System State"].get_value())
+            return {"violated": state == "Paused" and hw.values.get("V1") != 7, "system_state": state, "paused_flag": e._runstate_paused,
+                    "hardware_value_of_V1": hw.values.get("V1"), "safe_value": 7,
+                    "scenario": "run: Open sets V1=1, then command Boom raises -> error pause; several ticks later V1 on the hardware"}
+    finally:
+        logging.disable(logging.NOTSET)
